@@ -44,6 +44,7 @@ type Renderer struct {
 	Axioms     []Axiom
 	anchors    []float64
 	i2fs       [][2]string
+	emitLog    []int
 	grid       []gridNode
 }
 
@@ -218,6 +219,7 @@ func (r *Renderer) Ref(t *Term) string {
 		n = r.refReal(t)
 	}
 	r.emitted[t.ID] = n
+	r.emitLog = append(r.emitLog, t.ID)
 	return n
 }
 
